@@ -33,13 +33,14 @@ _TMP = None
 def tmpdir():
     global _TMP
     if _TMP is None:
-        _TMP = tempfile.mkdtemp(prefix="c19-")
+        _TMP = tempfile.mkdtemp(prefix="c19-", dir=os.environ.get("VERIF_SCRATCH") or None)
         atexit.register(shutil.rmtree, _TMP, True)
     return _TMP
 
 
 def bounds(tier):
-    return {"netcdf_program_depth": 3 if tier == "quick" else 4, "formats": ["NETCDF4", "NETCDF3_CLASSIC"]}
+    return {"netcdf_program_depth": 3 if tier == "quick" else 4, "formats": ["NETCDF4", "NETCDF3_CLASSIC"],
+            "alphabet": "full at every step" if tier != "quick" else "full at steps 1-2; step 3 restricted to NETCDF4 writes, modes w/a, names n1/a (plus all Dataset writes and open_nc assignments)"}
 
 
 # ------------------------------------------------------------------------------------------
@@ -76,14 +77,19 @@ def pool_array(aid):
         return _mk(["w"], [WL], ["O"], "f", 8, {}, {"w": {"lab": ["u", "v"]}})
     if aid == "A9":
         return _mk(["z", "x"], [ZL, XL], ["f", "i"], "f", 9, {"k": 1.25}, nan=(2,))
+    if aid == "A10":     # labels equal to netCDF's implicit 0..n-1 index, as floats, with axis metadata: must still be stored
+        return _mk(["k"], [[0.0, 1.0, 2.0]], ["f"], "f", 10, {"units": "m"}, {"k": {"units": "m", "offset": 7}})
+    if aid == "A11":     # the same with int labels, next to an ordinary axis
+        return _mk(["m", "x"], [[0, 1], XL], ["i", "i"], "i", 11, {}, {"m": {"long_name": "member"}})
     raise KeyError(aid)
 
 
-ARRAYS = ["A1", "A2", "A3", "A4", "A5", "A6", "A7", "A8", "A9"]
+ARRAYS = ["A1", "A2", "A3", "A4", "A5", "A6", "A7", "A8", "A9", "A10", "A11"]
 HAS_STR = {"A1": True, "A5": True, "A6": True, "A8": True}     # str labels or values: NETCDF4 only
 DATASETS = {"DS1": (["a:A1", "b:A2", "s:A4"], {"title": "T", "ver": 2, "hist": [1.5, 2.5]}),
             "DS2": (["c:A3", "d:A9"], {"title": "numeric"}),
-            "DS3": (["v:A6", "u:A5"], {})}
+            "DS3": (["v:A6", "u:A5"], {}),
+            "DS4": (["p:A10", "q:A11", "b:A2"], {"title": "index-like axes"})}
 
 
 def pool_dataset(did):
@@ -196,7 +202,7 @@ def events_all(tier):
     ev = []
     for did in DATASETS:
         for fmt in ("NETCDF4", "NETCDF3_CLASSIC"):
-            if fmt.startswith("NETCDF3") and did != "DS2":
+            if fmt.startswith("NETCDF3") and did not in ("DS2", "DS4"):
                 continue
             ev.append(["ds_write", did, fmt])
     for aid in ARRAYS:
@@ -286,7 +292,11 @@ class Space(object):
         return [[["nofile"]]]
 
     def events(self, hist, tier):
-        return events_all(tier)
+        ev = events_all(tier)
+        if tier == "quick" and len(hist) >= 3:
+            # quick tier: steps 1 and 2 use the whole alphabet; the third step only NETCDF4 writes without mode a+ and without name 'c'
+            ev = [e for e in ev if not (e[0] == "da_write" and (e[3] == "a+" or e[2] == "c" or e[4] != "NETCDF4")) and not (e[0] == "ds_write" and e[2] != "NETCDF4")]
+        return ev
 
     def run(self, hist):
         path = os.path.join(tmpdir(), "f%d_%d.nc" % (os.getpid(), abs(hash(json.dumps(hist))) % 10 ** 9))
